@@ -177,23 +177,28 @@ class VariableBoundVisitor(ModelVisitor):
                 
             propagator = None
                 
+            # Ranges are inferred on plain integers. That matches the 
+            # comparison the solver performs only if both operands are 
+            # interpreted alike: a comparison that mixes a signed and an
+            # unsigned operand is unsigned, and tells nothing simple about
+            # the signed one
             if lhs_bounds is not None and rhs_bounds is not None:
                 # Two-sided relationship involving fields
-                propagator = self.lhsvar_rhsvar_propagator(
-                    lhs_bounds, 
-                    e.op, 
-                    rhs_bounds)
-                pass
+                if lhs_fm.is_signed == rhs_fm.is_signed:
+                    propagator = self.lhsvar_rhsvar_propagator(
+                        lhs_bounds, 
+                        e.op, 
+                        rhs_bounds)
             elif lhs_bounds is not None:
                 # left-hand field and no right-hand field
-                if rhs_is_nonrand:
+                if rhs_is_nonrand and self._same_interpretation(lhs_fm, e.rhs):
                     propagator = self.lhsvar_rhsnre_propagator(
                         lhs_bounds, 
                         e.op, 
                         e.rhs)
             elif rhs_bounds is not None:
                 # right-hand field and no left-hand field
-                if lhs_is_nonrand:
+                if lhs_is_nonrand and self._same_interpretation(rhs_fm, e.lhs):
                     propagator = self.lhsnre_rhsvar_propagator(
                         e.lhs, 
                         e.op, 
@@ -232,6 +237,26 @@ class VariableBoundVisitor(ModelVisitor):
             lhs_bounds.add_propagator(propagator)
 
         return propagator
+    
+    def _same_interpretation(self, fm, e):
+        """True if comparing field 'fm' with the non-random expression 'e'
+        means the same on plain integers as it does for the solver"""
+        try:
+            e_signed = e.is_signed()
+        except Exception:
+            return False
+        if fm.is_signed == e_signed:
+            return True
+        elif fm.is_signed:
+            # Unsigned comparison of a signed field
+            return False
+        else:
+            # A signed quantity compared with an unsigned field: fine
+            # unless it is negative
+            try:
+                return int(e.val()) >= 0
+            except Exception:
+                return False
     
     def lhsvar_rhsnre_propagator(self,
                     lhs_bounds,
